@@ -23,15 +23,18 @@ InitCtor == \E c \in Ctors, nc \in Dims1, nr \in Dims1 : \E n \in Lens(nc, nr) :
                /\ Generated(c, nc, nr)
                /\ (c \in {"new", "init"} => n = 0)
                /\ req = [t |-> "ctor", c |-> c, nc |-> nc, nr |-> nr, n |-> n]
-InitEq == \E a \in AllGrids, b \in AllGrids : req = [t |-> "eq", a |-> a, b |-> b]
+\* refl = FALSE: element type whose == never holds; same = TRUE: both operands are one and the same object
+InitEq == \E a \in AllGrids, b \in AllGrids, refl \in BOOLEAN, same \in BOOLEAN :
+             /\ (same => a = b)
+             /\ req = [t |-> "eq", a |-> a, b |-> b, refl |-> refl, same |-> same]
 Init == (InitCtor \/ InitEq) /\ phase = "pending"
 
 Step == /\ phase = "pending" /\ phase' = "done" /\ UNCHANGED req
         /\ IF req.t = "ctor"
            THEN PrintT(<<"CASE", ToJson([fam |-> "ctor", t |-> "ctor", c |-> req.c, nc |-> req.nc, nr |-> req.nr, n |-> req.n,
                                          x |-> [res |-> Result(req.c, req.nc, req.nr, req.n)]])>>)
-           ELSE PrintT(<<"CASE", ToJson([fam |-> "ctor", t |-> "eq", a |-> req.a, b |-> req.b,
-                                         x |-> [eq |-> EqExpected(req.a, req.b)]])>>)
+           ELSE PrintT(<<"CASE", ToJson([fam |-> "ctor", t |-> "eq", a |-> req.a, b |-> req.b, refl |-> req.refl, same |-> req.same,
+                                         x |-> [eq |-> EqExpectedR(req.a, req.b, req.refl)]])>>)
 Spec == Init /\ [][Step]_vars
 
 (* ---- invariants ---- *)
@@ -43,5 +46,6 @@ AcceptedShapeOK == req.t = "ctor" =>
 \* Layer B: the checked_mul guard equals the mathematical rule for all W-bit inputs
 GuardInv == GuardRefines(W)
 \* equality is an equivalence compatible with the definition
-EqInv == req.t = "eq" => (EqExpected(req.a, req.b) <=> req.a = req.b)
+EqInv == req.t = "eq" => /\ (EqExpectedR(req.a, req.b, TRUE) <=> req.a = req.b)
+                         /\ (EqExpectedR(req.a, req.b, FALSE) => EqExpectedR(req.a, req.b, TRUE))
 =============================================================================
